@@ -268,17 +268,7 @@ pub fn run_check(prop: &str, tier: Tier, seed: u64) -> i32 {
 fn c06(tier: Tier, seed: u64) -> i32 {
 	let mut ctx = CheckCtx::new("C06", "exploration", tier, seed);
 	ctx.rule = "SEQ histories decoded from proptest byte vectors (16 runners, seeds f(VERIF_SEED, worker)) over the key-affecting vocabulary (get/drop/forget key, lock/try_lock/read/try_read incl. failures, unlock fns, guard drop/forget, scoped_* with lent and owned key, panicking closures and guards, poisoned results) on 1-2 threads; after every step and inside every closure ThreadKey::get() is compared with the reference model 'key alive'. Non-trivial = the history moved a key through a carrier (guard, failed try, owned-key scoped call, unwinding) and performed a later GetKey; distinct = hash of the decoded case.".into();
-	let mut cfg = seq_cfg_general();
-	cfg.max_steps = 16;
-	cfg.w.get_key = 10;
-	cfg.w.drop_key = 3;
-	cfg.w.forget_key = 1;
-	cfg.w.p_forget_guard = 20;
-	cfg.w.p_panic = 50;
-	cfg.w.p_probe_in_body = 150;
-	cfg.w.p_owned_key = 128;
-	cfg.world.max_colls = 3;
-	let opts = Opts::default();
+	let (cfg, opts) = seq_profile("C06").unwrap();
 	let nontrivial = |case: &SeqCase, r: &RunResult| {
 		let carrier = has(r, "acquire.") || has(r, "panic_") || has(r, "forget_");
 		let mut seen_acq = false;
@@ -307,22 +297,7 @@ fn c06(tier: Tier, seed: u64) -> i32 {
 fn c13(tier: Tier, seed: u64) -> i32 {
 	let mut ctx = CheckCtx::new("C13", "exploration", tier, seed);
 	ctx.rule = "SEQ: a world (all collection kinds / containers / nestings), a pattern of phantom holders (free / read-held / write-held per leaf), then try_lock / try_read / scoped_try_* on every target; Ok must hold iff the reference table allows it, a failed attempt must leave the owner table unchanged, a successful one must be undone by dropping the guard. Non-trivial = at least one leaf held by a phantom and a target with >= 2 leaves; distinct = hash of the decoded case.".into();
-	let mut cfg = seq_cfg_general();
-	cfg.max_threads = 1;
-	cfg.max_steps = 14;
-	cfg.w = StepW {
-		get_key: 8,
-		acquire: 10,
-		scoped: 8,
-		guard_ops: 2,
-		release: 12,
-		phantom_hold: 9,
-		phantom_release: 3,
-		p_try: 235,
-		p_read: 120,
-		..StepW::default()
-	};
-	let opts = Opts { quiescent: true, ..Default::default() };
+	let (cfg, opts) = seq_profile("C13").unwrap();
 	let nontrivial = |case: &SeqCase, r: &RunResult| {
 		let held = count_steps(case, |s| matches!(s, Step::PhantomHold { .. })) > 0;
 		let sem = Sem::new(&case.world);
@@ -340,18 +315,145 @@ fn c13(tier: Tier, seed: u64) -> i32 {
 		let case = gen_seq(&mut Src::new(bytes), &cfg);
 		eval_seq_case(&e, &case, want)
 	});
+	// exhaustive slice: every depth-1 shape x arrangement x held pattern x try API
+	let maxn = tier.pick(3, 4) as usize;
+	let items = c13_exhaustive_items(maxn);
+	let nitems = items.len();
+	ctx.enumerate("exhaustive-depth1-shapes-x-held-patterns", items, |case, want| eval_seq_case(&e, case, want));
+	ctx.extra.insert(
+		"exhaustive_slice".into(),
+		json!(format!("{nitems} cases: by-reference {{Boxed, Ref, Retry}}::try_new and by-value {{Owned, Boxed, Retry}}::new over {{Vec, Box<[_]>, array, tuple}} of 0..={maxn} RwLock leaves, every permutation (by-ref), every assignment of {{free, read-held, write-held}} to the leaves, x {{try_lock, try_read, scoped_try_lock, scoped_try_read}}; single RwLock and Mutex leaves likewise")),
+	);
 	ctx.require_label("try_failed", 200);
 	ctx.require_label("rollback", 100);
 	ctx.finish()
 }
 
+fn permutations(n: usize) -> Vec<Vec<usize>> {
+	if n == 0 {
+		return vec![vec![]];
+	}
+	let mut out = Vec::new();
+	for p in permutations(n - 1) {
+		for i in 0..=p.len() {
+			let mut q = p.clone();
+			q.insert(i, n - 1);
+			out.push(q);
+		}
+	}
+	out
+}
+
+fn c13_exhaustive_items(maxn: usize) -> Vec<SeqCase> {
+	let mut items = Vec::new();
+	let conts = [Cont::Vec, Cont::BoxSlice, Cont::Array, Cont::Tuple];
+	let mut worlds: Vec<(WorldSpec, usize)> = Vec::new(); // (world, nleaves of the target)
+	for n in 0..=maxn {
+		for cont in conts {
+			if cont == Cont::Tuple && n == 0 {
+				continue;
+			}
+			for kind in [KindTag::Boxed, KindTag::Ref, KindTag::Retry] {
+				for perm in permutations(n) {
+					worlds.push((
+						WorldSpec {
+							leaves: vec![LeafDecl { ty: LeafTy::R, wraps: 0 }; n],
+							colls: vec![CollSpec { kind, ctor: Ctor::TryNew, cont, content: Content::ByRef(perm.iter().map(|i| MemberSpec::Leaf(*i)).collect()), pois: false }],
+						},
+						n,
+					));
+				}
+			}
+			for kind in [KindTag::Owned, KindTag::Boxed, KindTag::Retry] {
+				worlds.push((
+					WorldSpec {
+						leaves: vec![],
+						colls: vec![CollSpec {
+							kind,
+							ctor: Ctor::New,
+							cont,
+							content: Content::ByVal((0..n).map(|_| OMemberSpec::Leaf(LeafDecl { ty: LeafTy::R, wraps: 0 })).collect()),
+							pois: false,
+						}],
+					},
+					n,
+				));
+			}
+		}
+	}
+	for (world, n) in worlds {
+		let mut pat = vec![0u8; n];
+		loop {
+			for (read, scoped) in [(false, false), (true, false), (false, true), (true, true)] {
+				let mut steps: Vec<(u8, Step)> = vec![(0, Step::GetKey)];
+				for (l, p) in pat.iter().enumerate() {
+					match p {
+						1 => steps.push((0, Step::PhantomHold { leaf: l as u32, shared: true })),
+						2 => steps.push((0, Step::PhantomHold { leaf: l as u32, shared: false })),
+						_ => {}
+					}
+				}
+				let t = TargetRef::Coll(0);
+				if scoped {
+					steps.push((0, Step::Scoped { target: t, read, try_: true, owned_key: false, body: vec![BodyOp::Touch] }));
+				} else {
+					steps.push((0, Step::Acquire { target: t, read, try_: true }));
+					steps.push((0, Step::GuardOps { ops: vec![BodyOp::Touch] }));
+					steps.push((0, Step::Release { how: ReleaseHow::Drop }));
+				}
+				items.push(SeqCase { world: world.clone(), nthreads: 1, steps, fault: None });
+			}
+			// next pattern (base 3)
+			let mut i = 0;
+			loop {
+				if i == n {
+					break;
+				}
+				pat[i] += 1;
+				if pat[i] < 3 {
+					break;
+				}
+				pat[i] = 0;
+				i += 1;
+			}
+			if i == n {
+				break;
+			}
+		}
+	}
+	// single locks
+	for ty in [LeafTy::R, LeafTy::M] {
+		for wraps in 0..=2u8 {
+			for p in 0..3u8 {
+				for (read, scoped) in [(false, false), (true, false), (false, true), (true, true)] {
+					if read && ty == LeafTy::M {
+						continue;
+					}
+					let mut steps: Vec<(u8, Step)> = vec![(0, Step::GetKey)];
+					match p {
+						1 if ty == LeafTy::R => steps.push((0, Step::PhantomHold { leaf: 0, shared: true })),
+						2 => steps.push((0, Step::PhantomHold { leaf: 0, shared: false })),
+						_ => {}
+					}
+					let t = TargetRef::Leaf(0);
+					if scoped {
+						steps.push((0, Step::Scoped { target: t, read, try_: true, owned_key: true, body: vec![BodyOp::Touch] }));
+					} else {
+						steps.push((0, Step::Acquire { target: t, read, try_: true }));
+						steps.push((0, Step::Release { how: ReleaseHow::UnlockFn }));
+					}
+					items.push(SeqCase { world: WorldSpec { leaves: vec![LeafDecl { ty, wraps }], colls: vec![] }, nthreads: 1, steps, fault: None });
+				}
+			}
+		}
+	}
+	items
+}
+
 fn c04(tier: Tier, seed: u64) -> i32 {
 	let mut ctx = CheckCtx::new("C04", "exploration", tier, seed);
 	ctx.rule = "SEQ: collection specs (kind x ctor x container x nesting <= 2 x sizes 0..5 x arrangement) x mode x API flavour x pre-held pattern (phantom read/write holders and holds of a second thread); after every acquisition the caller's held multiset must equal the leaf multiset of the spec (Ok) or be empty with the key back (Err), no try_* may wait, scoped closures run once iff success. Non-trivial = a try_* failed after taking >= 1 member (rollback), or the target nests collections, or it has >= 3 leaves declared in non-sorted order; distinct = hash of the decoded case.".into();
-	let mut cfg = seq_cfg_general();
-	cfg.w.phantom_hold = 5;
-	cfg.w.p_try = 150;
-	let opts = Opts { quiescent: false, ..Default::default() };
+	let (cfg, opts) = seq_profile("C04").unwrap();
 	let nontrivial = |case: &SeqCase, r: &RunResult| (has(r, "rollback") || any_nested_or_big(case)) && has(r, "acquire.");
 	let e = SeqEval { prop: "C04", opts, nontrivial: &nontrivial, extra: None };
 	let n = tier.pick(40_000, 2_000_000);
@@ -367,11 +469,7 @@ fn c04(tier: Tier, seed: u64) -> i32 {
 fn c03(tier: Tier, seed: u64) -> i32 {
 	let mut ctx = CheckCtx::new("C03", "exploration", tier, seed);
 	ctx.rule = "SEQ histories over the full acquire/release vocabulary (every API flavour of single locks, the four collection kinds, Poisonable; failed try via phantom holders; poisoned Err carrying a guard; panicking closures; lent and owned keys); oracle: at the first raw operation of every acquiring call the caller holds nothing, and whenever a key comes back (Err(key), unlock fn, scoped call returned) the caller holds nothing. Non-trivial = >= 2 acquisitions with a key hand-back in between through a failed try, an unlock fn, or an unwound call; distinct = hash of the decoded case.".into();
-	let mut cfg = seq_cfg_general();
-	cfg.w.p_panic = 40;
-	cfg.w.phantom_hold = 4;
-	cfg.w.p_unlock_fn = 150;
-	let opts = Opts::default();
+	let (cfg, opts) = seq_profile("C03").unwrap();
 	let nontrivial = |_case: &SeqCase, r: &RunResult| {
 		let acq: u64 = r.labels.iter().filter(|(k, _)| k.starts_with("acquire.")).map(|(_, v)| *v).sum();
 		acq >= 2 && (has(r, "try_failed") || has(r, "key_via_unlock") || has(r, "panic_in_scoped") || has(r, "panic_with_guard"))
@@ -390,11 +488,7 @@ fn c03(tier: Tier, seed: u64) -> i32 {
 fn c05(tier: Tier, seed: u64) -> i32 {
 	let mut ctx = CheckCtx::new("C05", "exploration", tier, seed);
 	ctx.rule = "SEQ histories (as C03/C04) with the release audit of the verification raw locks: every raw unlock must be issued by a thread that holds the lock in that mode; per call, releases == holds (multiset); after all guards are dropped every lock is free except holds leaked on purpose. Non-trivial = a collection of >= 2 leaves was acquired and released, or a rollback happened; distinct = hash of the decoded case.".into();
-	let mut cfg = seq_cfg_general();
-	cfg.w.phantom_hold = 4;
-	cfg.w.p_panic = 30;
-	cfg.w.p_forget_guard = 10;
-	let opts = Opts::default();
+	let (cfg, opts) = seq_profile("C05").unwrap();
 	let nontrivial = |_case: &SeqCase, r: &RunResult| has(r, "released_multi") || has(r, "rollback");
 	let e = SeqEval { prop: "C05", opts, nontrivial: &nontrivial, extra: None };
 	let n = tier.pick(40_000, 2_000_000);
@@ -410,20 +504,7 @@ fn c05(tier: Tier, seed: u64) -> i32 {
 fn c17(tier: Tier, seed: u64) -> i32 {
 	let mut ctx = CheckCtx::new("C17", "exploration", tier, seed);
 	ctx.rule = "SEQ: non-acquiring operations ({:?} of locks / collections / guards, is_poisoned, clear_poison, child/iter accessors, checked constructors + into_child on temporary collections) executed while leaves are free / read-held / write-held by phantoms, by another thread's live guard, by the calling thread's own guard or from inside its own running scoped closure; oracle: no blocking raw operation had to wait (incl. self-wait) and the owner table after == before. Non-trivial = >= 1 leaf was held by anyone during the operation; distinct = hash of the decoded case.".into();
-	let mut cfg = seq_cfg_general();
-	cfg.max_steps = 16;
-	cfg.w = StepW {
-		phantom_hold: 6,
-		is_poisoned: 4,
-		clear_poison: 2,
-		debug: 12,
-		accessors: 4,
-		temp_coll: 6,
-		p_debug_in_body: 200,
-		release: 5,
-		..StepW::default()
-	};
-	let opts = Opts { quiescent: true, ..Default::default() };
+	let (cfg, opts) = seq_profile("C17").unwrap();
 	let nontrivial = |case: &SeqCase, r: &RunResult| {
 		// some hold existed while a non-acquiring op ran: approximated per case by
 		// "a hold step precedes a non-acquiring step" or a Debug inside a section
@@ -679,16 +760,7 @@ pub fn order_findings(world: &WorldSpec, r: &RunResult) -> Vec<Finding> {
 fn c08(tier: Tier, seed: u64) -> i32 {
 	let mut ctx = CheckCtx::new("C08", "exploration", tier, seed);
 	ctx.rule = "SEQ: worlds with 2-5 sorting collections (boxed / ref; members: leaves, Poisonable wrappers, nested boxed/ref/retrying collections, owned collections and by-value groups) over a shared universe of <= 5 leaves, later collections being permuted copies of earlier ones; every blocking lock/read/scoped call records its sequence of blocking raw acquisitions. Metamorphic oracle: all sequences agree pairwise on the relative order of common locks (union of precedence pairs acyclic), the same collection always gives the same sequence, owned groups are contiguous (acquired as one unit). Non-trivial = two sorting collections sharing >= 2 leaves listed in different relative order were both acquired, or a nested member whose listing order differs from the acquisition order; distinct = hash of the decoded case.".into();
-	let mut cfg = seq_cfg_general();
-	cfg.max_threads = 1;
-	cfg.max_steps = 16;
-	cfg.world.min_colls = 2;
-	cfg.world.max_colls = 5;
-	cfg.world.min_leaves = 2;
-	cfg.world.p_copy_permuted = 150;
-	cfg.world.p_byval = 50;
-	cfg.w = StepW { phantom_hold: 0, phantom_release: 0, p_try: 20, p_read: 100, p_coll_target: 250, guard_ops: 1, ..StepW::default() };
-	let opts = Opts::default();
+	let (cfg, opts) = seq_profile("C08").unwrap();
 	let nontrivial = |case: &SeqCase, r: &RunResult| c08_nontrivial(&case.world, r);
 	let extra = |case: &SeqCase, r: &RunResult| order_findings(&case.world, r);
 	let e = SeqEval { prop: "C08", opts, nontrivial: &nontrivial, extra: Some(&extra) };
@@ -727,12 +799,7 @@ pub fn c08_nontrivial(world: &WorldSpec, r: &RunResult) -> bool {
 fn c02(tier: Tier, seed: u64) -> i32 {
 	let mut ctx = CheckCtx::new("C02", "exploration", tier, seed);
 	ctx.rule = "SEQ part: every collection shape (kind x container x nesting x arrangement) is acquired through guards and scoped closures by 1-2 threads; at every visit of a protected value the owner table must say the visiting thread holds that leaf in a sufficient mode (held-at-use), position i must show the payload of declared member i (routing), the version seen must equal the shadow version left by the last exclusive section (continuity), closures run with the whole leaf set held. CONC part: the same oracles in 2-4 thread programs with a scheduling point inside every critical section, under generated schedules. Non-trivial = (SEQ) a target with >= 2 leaves whose declared order differs from lock-id order or that nests collections was visited; (CONC) two threads had sections on a common leaf, one exclusive, with a context switch in between; distinct = hash of case (+ schedule).".into();
-	let mut cfg = seq_cfg_general();
-	cfg.max_steps = 14;
-	cfg.w.guard_ops = 12;
-	cfg.w.phantom_hold = 1;
-	cfg.w.p_try = 60;
-	let opts = Opts::default();
+	let (cfg, opts) = seq_profile("C02").unwrap();
 	let nontrivial = |case: &SeqCase, r: &RunResult| any_nested_or_big(case) && r.raw_ops >= 4;
 	let e = SeqEval { prop: "C02", opts, nontrivial: &nontrivial, extra: None };
 	let n = tier.pick(150_000, 3_000_000);
@@ -780,23 +847,7 @@ pub fn conc_nontrivial(prop: &str, case: &ConcCase, r: &RunResult) -> bool {
 fn c10(tier: Tier, seed: u64) -> i32 {
 	let mut ctx = CheckCtx::new("C10", "exploration", tier, seed);
 	ctx.rule = "SEQ histories on 1-2 threads over Poisonable-heavy worlds (Poisonable leaves, double wrappers, inline Poisonable<&lock> members, Poisonable collections, nested): holds through the wrapper's own guard and scoped calls and through every collection kind's guards and scoped calls, try paths, panics injected at any hold, clear_poison, is_poisoned, later acquisitions by both threads. Reference model per wrapper: Clean / Poisoned (panic under an exclusive hold) / Unspecified (panic under a shared hold only); compared with is_poisoned(), Ok/Err of every acquisition and of every member position. Also: a poisoned acquisition holds the lock and its guard works; plain locks stay usable. Non-trivial = a panic during a hold followed by an observation of that wrapper, or a clear followed by a re-poison; distinct = hash of the decoded case.".into();
-	let mut cfg = seq_cfg_general();
-	cfg.max_steps = 18;
-	cfg.world.p_wrap = 170;
-	cfg.world.p_inline_wrap = 90;
-	cfg.world.p_pois_coll = 110;
-	cfg.w = StepW {
-		guard_ops: 12,
-		p_panic: 90,
-		is_poisoned: 6,
-		clear_poison: 3,
-		phantom_hold: 1,
-		p_try: 90,
-		p_forget_guard: 0,
-		forget_key: 0,
-		..StepW::default()
-	};
-	let opts = Opts { quiescent: true, ..Default::default() };
+	let (cfg, opts) = seq_profile("C10").unwrap();
 	let nontrivial = |_case: &SeqCase, r: &RunResult| has(r, "panic_in_section") && (has(r, "poison_observed_after_panic") || has(r, "poisoned_acquire") || has(r, "clear_after_poison"));
 	let extra = |case: &SeqCase, r: &RunResult| post_findings("C10", &AnyCase::Seq(case.clone()), r);
 	let e = SeqEval { prop: "C10", opts, nontrivial: &nontrivial, extra: Some(&extra) };
@@ -813,11 +864,7 @@ fn c10(tier: Tier, seed: u64) -> i32 {
 fn c11(tier: Tier, seed: u64) -> i32 {
 	let mut ctx = CheckCtx::new("C11", "exploration", tier, seed);
 	ctx.rule = "SEQ: API flavour x kind x size x mode x {owned, lent key} with a panic (private payload) injected while the guard is alive or inside the closure; oracle: catch_unwind yields our payload, afterwards the caller holds nothing, releases == holds (multiset), ThreadKey::get() is Some if the key had been moved in (or the lent key works again). CONC: the panic in a critical section of 2-4 thread programs with waiters; the execution must complete (no deadlock, all threads finish). Non-trivial = >= 2 leaves were held at the panic (SEQ) or another thread was waiting for one of them (CONC); distinct = hash of case (+ schedule).".into();
-	let mut cfg = seq_cfg_general();
-	cfg.w.p_panic = 140;
-	cfg.w.guard_ops = 12;
-	cfg.w.phantom_hold = 1;
-	let opts = Opts::default();
+	let (cfg, opts) = seq_profile("C11").unwrap();
 	let nontrivial = |case: &SeqCase, r: &RunResult| {
 		if !has(r, "panic_in_section") {
 			return false;
@@ -880,6 +927,16 @@ fn c01(tier: Tier, seed: u64) -> i32 {
 		let case = gen_conc(&mut Src::new(bytes), &cfg);
 		eval_conc_case(&e, &case, want)
 	});
+	// all schedules of tiny programs
+	let tcfg = tiny_conc_cfg();
+	let cap = tier.pick(4_000, 60_000) as usize;
+	let n = tier.pick(600, 20_000);
+	ctx.search("conc-tiny-programs-all-schedules", n, 120, |bytes, want| {
+		let case = gen_conc(&mut Src::new(bytes), &tcfg);
+		exhaust_program(&e, &case, cap, want)
+	});
+	ctx.extra.insert("exhaustive_slice".into(), json!("for every generated 2-thread / 1-acquisition program labelled conc.exhaustive.program_fully_enumerated, ALL schedules at raw-operation granularity were executed (stateless DFS over the choices at branch points)"));
+	ctx.require_label("conc.exhaustive.program_fully_enumerated", 100);
 	ctx.require_label("conc.waited", 1000);
 	ctx.require_label("conc.writer_pref", 1000);
 	ctx.require_label("world.kind.Retry", 1000);
@@ -914,6 +971,15 @@ fn c09(tier: Tier, seed: u64) -> i32 {
 		}
 		rep
 	});
+	let mut tcfg = tiny_conc_cfg();
+	tcfg.retry_first = true;
+	let cap = tier.pick(4_000, 60_000) as usize;
+	let n = tier.pick(600, 20_000);
+	ctx.search("conc-tiny-retry-programs-all-schedules", n, 120, |bytes, want| {
+		let case = gen_conc(&mut Src::new(bytes), &tcfg);
+		exhaust_program(&e, &case, cap, want)
+	});
+	ctx.require_label("conc.exhaustive.program_fully_enumerated", 100);
 	ctx.require_label("retry.rolled_back", 500);
 	ctx.finish()
 }
@@ -1353,4 +1419,276 @@ fn c16(tier: Tier, seed: u64) -> i32 {
 	ctx.require_label("c16.poisoned", 1000);
 	ctx.require_label("c16.end.IntoChild", 1000);
 	ctx.finish()
+}
+
+
+/// Explore ALL schedules of one program (stateless DFS over the choices at
+/// branch points); `cap` bounds the number of executions.
+pub fn exhaust_program(e: &ConcEval<'_>, case: &ConcCase, cap: usize, want: bool) -> CaseReport {
+	let mut rep = CaseReport { fp: fp_str(&format!("{:?}{:?}", case.world, case.programs)), ..Default::default() };
+	let mut stack: Vec<Vec<u8>> = vec![vec![]];
+	let mut runs = 0usize;
+	let mut complete = true;
+	let mut labels: std::collections::BTreeSet<String> = std::collections::BTreeSet::new();
+	let mut max_branch = 0usize;
+	while let Some(prefix) = stack.pop() {
+		if runs >= cap {
+			complete = false;
+			break;
+		}
+		let mut c = case.clone();
+		c.forced = Some(prefix.clone());
+		c.schedule = vec![];
+		let r = run_conc(&c, Opts { conc: true, ..Default::default() });
+		runs += 1;
+		if r.invalid.is_some() {
+			return CaseReport { invalid: true, ..Default::default() };
+		}
+		let branches: Vec<(u8, u8)> = r.taken.iter().filter(|(_, k)| *k > 1).cloned().collect();
+		max_branch = max_branch.max(branches.len());
+		// children: flip every choice after the forced prefix
+		for j in prefix.len()..branches.len() {
+			let (_, k) = branches[j];
+			for a in 1..k {
+				let mut p2: Vec<u8> = branches[..j].iter().map(|(i, _)| *i).collect();
+				p2.push(a);
+				stack.push(p2);
+			}
+		}
+		let mut v = mine(e.prop, &r);
+		if let Some(x) = e.extra {
+			v.extend(x(&c, &r));
+		}
+		if (e.nontrivial)(&c, &r) {
+			rep.extra_nontrivial.push(fp_str(&format!("{:?}{:?}{:?}", case.world, case.programs, r.taken)));
+			if want && rep.sample.is_none() {
+				rep.sample = Some(sample_conc(&c, &r));
+				rep.nontrivial = true;
+			}
+		}
+		if r.waited {
+			labels.insert("conc.waited".into());
+		}
+		if let Some(i) = r.inconclusive.clone() {
+			rep.inconclusive = Some(i);
+		}
+		if !v.is_empty() && rep.replay.is_none() {
+			rep.replay = Some(json!({"engine": "conc", "opts": opts_json(&Opts { conc: true, ..Default::default() }), "case": c, "trace": r.trace, "world": describe_world(&case.world)}));
+		}
+		rep.violations.extend(v);
+		if !rep.violations.is_empty() {
+			break;
+		}
+	}
+	rep.extra_evals = runs.saturating_sub(1) as u64;
+	labels.insert(if complete { "conc.exhaustive.program_fully_enumerated".into() } else { "conc.exhaustive.capped".into() });
+	labels.insert(format!("conc.exhaustive.branch_points<={}", ((max_branch + 3) / 4) * 4));
+	for c in &case.world.colls {
+		labels.insert(format!("world.kind.{:?}", c.kind));
+	}
+	rep.labels = labels.into_iter().collect();
+	rep
+}
+
+pub fn tiny_conc_cfg() -> ConcCfg {
+	ConcCfg {
+		world: WorldCfg { min_leaves: 2, max_leaves: 3, min_colls: 1, max_colls: 3, max_members: 3, p_byval: 40, p_nested: 50, p_wrap: 20, ..WorldCfg::default() },
+		min_threads: 2,
+		max_threads: 2,
+		max_acq: 1,
+		p_yield: 0,
+		p_try: 40,
+		max_sched: 0,
+		..ConcCfg::default()
+	}
+}
+
+/// generator configuration and interpreter options of the SEQ campaign of a property
+/// (shared by the proptest runner and the libFuzzer targets)
+pub fn seq_profile(prop: &str) -> Option<(SeqCfg, Opts)> {
+	match prop {
+		"C06" => {
+			let mut cfg = seq_cfg_general();
+			cfg.max_steps = 16;
+			cfg.w.get_key = 10;
+			cfg.w.drop_key = 3;
+			cfg.w.forget_key = 1;
+			cfg.w.p_forget_guard = 20;
+			cfg.w.p_panic = 50;
+			cfg.w.p_probe_in_body = 150;
+			cfg.w.p_owned_key = 128;
+			cfg.world.max_colls = 3;
+			let opts = Opts::default();
+			Some((cfg, opts))
+		}
+		"C13" => {
+			let mut cfg = seq_cfg_general();
+			cfg.max_threads = 1;
+			cfg.max_steps = 14;
+			cfg.w = StepW {
+				get_key: 8,
+				acquire: 10,
+				scoped: 8,
+				guard_ops: 2,
+				release: 12,
+				phantom_hold: 9,
+				phantom_release: 3,
+				p_try: 235,
+				p_read: 120,
+				..StepW::default()
+			};
+			let opts = Opts { quiescent: true, ..Default::default() };
+			Some((cfg, opts))
+		}
+		"C04" => {
+			let mut cfg = seq_cfg_general();
+			cfg.w.phantom_hold = 5;
+			cfg.w.p_try = 150;
+			let opts = Opts { quiescent: false, ..Default::default() };
+			Some((cfg, opts))
+		}
+		"C03" => {
+			let mut cfg = seq_cfg_general();
+			cfg.w.p_panic = 40;
+			cfg.w.phantom_hold = 4;
+			cfg.w.p_unlock_fn = 150;
+			let opts = Opts::default();
+			Some((cfg, opts))
+		}
+		"C05" => {
+			let mut cfg = seq_cfg_general();
+			cfg.w.phantom_hold = 4;
+			cfg.w.p_panic = 30;
+			cfg.w.p_forget_guard = 10;
+			let opts = Opts::default();
+			Some((cfg, opts))
+		}
+		"C17" => {
+			let mut cfg = seq_cfg_general();
+			cfg.max_steps = 16;
+			cfg.w = StepW {
+				phantom_hold: 6,
+				is_poisoned: 4,
+				clear_poison: 2,
+				debug: 12,
+				accessors: 4,
+				temp_coll: 6,
+				p_debug_in_body: 200,
+				release: 5,
+				..StepW::default()
+			};
+			let opts = Opts { quiescent: true, ..Default::default() };
+			Some((cfg, opts))
+		}
+		"C08" => {
+			let mut cfg = seq_cfg_general();
+			cfg.max_threads = 1;
+			cfg.max_steps = 16;
+			cfg.world.min_colls = 2;
+			cfg.world.max_colls = 5;
+			cfg.world.min_leaves = 2;
+			cfg.world.p_copy_permuted = 150;
+			cfg.world.p_byval = 50;
+			cfg.w = StepW { phantom_hold: 0, phantom_release: 0, p_try: 20, p_read: 100, p_coll_target: 250, guard_ops: 1, ..StepW::default() };
+			let opts = Opts::default();
+			Some((cfg, opts))
+		}
+		"C02" => {
+			let mut cfg = seq_cfg_general();
+			cfg.max_steps = 14;
+			cfg.w.guard_ops = 12;
+			cfg.w.phantom_hold = 1;
+			cfg.w.p_try = 60;
+			let opts = Opts::default();
+			Some((cfg, opts))
+		}
+		"C10" => {
+			let mut cfg = seq_cfg_general();
+			cfg.max_steps = 18;
+			cfg.world.p_wrap = 170;
+			cfg.world.p_inline_wrap = 90;
+			cfg.world.p_pois_coll = 110;
+			cfg.w = StepW {
+				guard_ops: 12,
+				p_panic: 90,
+				is_poisoned: 6,
+				clear_poison: 3,
+				phantom_hold: 1,
+				p_try: 90,
+				p_forget_guard: 0,
+				forget_key: 0,
+				..StepW::default()
+			};
+			let opts = Opts { quiescent: true, ..Default::default() };
+			Some((cfg, opts))
+		}
+		"C11" => {
+			let mut cfg = seq_cfg_general();
+			cfg.w.p_panic = 140;
+			cfg.w.guard_ops = 12;
+			cfg.w.phantom_hold = 1;
+			let opts = Opts::default();
+			Some((cfg, opts))
+		}
+		_ => None,
+	}
+}
+
+/// generator configuration of the CONC campaign of a property
+pub fn conc_profile(prop: &str) -> Option<ConcCfg> {
+	match prop {
+		"C01" => Some(ConcCfg { min_threads: 1, ..ConcCfg::default() }),
+		"C02" | "C05" | "C04" | "C03" | "C08" => Some(ConcCfg::default()),
+		"C09" => {
+			let mut cfg = ConcCfg::default();
+			cfg.retry_first = true;
+			cfg.world.min_colls = 2;
+			cfg.p_try = 20;
+			Some(cfg)
+		}
+		"C11" => {
+			let mut cfg = ConcCfg::default();
+			cfg.p_panic = 110;
+			Some(cfg)
+		}
+		_ => None,
+	}
+}
+
+/// All findings of `prop` in one SEQ run (engine findings + post-hoc oracles).
+pub fn seq_violations(prop: &str, case: &SeqCase, r: &RunResult) -> Vec<Finding> {
+	let mut f = mine(prop, r);
+	f.extend(post_findings(prop, &AnyCase::Seq(case.clone()), r));
+	f
+}
+
+pub fn conc_violations(prop: &str, case: &ConcCase, r: &RunResult) -> Vec<Finding> {
+	let mut f = mine(prop, r);
+	f.extend(post_findings(prop, &AnyCase::Conc(case.clone()), r));
+	match prop {
+		"C11" if has(r, "panic_in_section") => f.extend(
+			r.findings
+				.iter()
+				.filter(|x| x.prop == "C01" && (x.sig == "deadlock" || x.sig == "no-progress-cycle"))
+				.map(|x| Finding { prop: "C11", sig: format!("waiters-stuck-after-panic|{}", x.sig), ..x.clone() }),
+		),
+		"C09" => f.extend(
+			r.findings
+				.iter()
+				.filter(|x| x.prop == "C01" && (x.sig == "deadlock" || x.sig == "no-progress-cycle"))
+				.map(|x| Finding { prop: "C09", sig: format!("does-not-complete|{}", x.sig), ..x.clone() }),
+		),
+		_ => {}
+	}
+	f
+}
+
+/// replay file written by a libFuzzer target (same format as the proptest runner's)
+pub fn write_fuzz_replay(prop: &str, fd: &Finding, case: Value) -> String {
+	let dir = verif_root().join("replays");
+	let _ = std::fs::create_dir_all(&dir);
+	let path = dir.join(format!("{prop}-fuzz-{:016x}.json", fp_str(&format!("{}{}", fd.sig, case))));
+	let doc = json!({"property": prop, "signature": fd.sig, "finding_property": fd.prop, "detail": fd.detail, "step": fd.step, "tid": fd.tid, "case": case, "found_by": "libFuzzer"});
+	let _ = std::fs::write(&path, serde_json::to_string_pretty(&doc).unwrap());
+	path.display().to_string()
 }
